@@ -383,7 +383,9 @@ def _run_cat(ctx, case, st):
             info={"pairs": case["pairs"], "kernel": K.tolist()}, finding=fk)
   r = _assert_ok(ctx, "CategoricalCalibration.init/assert_constraints", layer, "CategoricalCalibration")
   if r is not True:
-    fk2 = "KF-C03-a" if v > tol else (fkb if bmsg else None)
+    # assert_constraints uses eps = 1e-6: a fresh kernel that ignores its ordering pairs by less than this check's own
+    # tolerance (1e-5 * scale) is the same finding (thorough tier: two uniform(-0.05, 0.05) values 3e-6 apart)
+    fk2 = "KF-C03-a" if (v > tol or (v > 0 and "Monotonicity violation" in str(r))) else (fkb if bmsg else None)
     ctx.check("CategoricalCalibration.init/assert_constraints", False, "fresh CategoricalCalibration fails its own assert_constraints(): %s" % r,
               finding=fk2)
   return bool(case["pairs"] or case["omin"] is not None or case["omax"] is not None), None
